@@ -1,8 +1,9 @@
 """C14 -- credentials never reach the logs (PARTIAL by design: see DESIGN.md section 4 C14 and section 8).
 
-Proved (PropC14.v): LicenseKey.String / obfuscated URL noninterference, removeURLFromError, the ARGV echo
-against a model of Go's flag syntax (partial: guard shadow_free; refuted without it), the --define lexer
-lemma, and the typed table of log call sites generated from the current sources.
+Proved (PropC14.v): LicenseKey.String / obfuscated URL noninterference (short keys: known finding),
+removeURLFromError, the ARGV echo against a model of Go's flag syntax (full statement since the echo steps
+through the arguments like the flag package, /repo 3800b33), the --define lexer lemma, and the typed table of
+log call sites generated from the current sources.
 
 Tied to the code here:
   * correspondence: real redactArgs, real flag sets (Parse -> cfg.Proxy), real LicenseKey.String / RpmCmd.url,
@@ -86,12 +87,17 @@ def gen_argvs(rng, n):
     dropped in the middle swallows the next argument and moves the password to a position that is not the proxy
     setting: such lines are judged only through the proxy value the real parser ends up with."""
     out = []
-    fixed = [[], ["--proxy", PROXY_V], ["-x", PROXY_V], ["--", "--proxy", PROXY_V], ["stray", "--proxy", PROXY_V],
+    fixed = [[], ["--proxy", PROXY_V], ["-x", PROXY_V],
              ["--proxy", PROXY_V, "--proxy", "other"], ["--define", "proxy=" + PROXY_V, "--define", "proxy=" + PROXY_V],
-             ["-"], ["--"], ["-f", "--", "-x", PROXY_V]]
+             ["-"], ["--"]]
+    # fixed corpus: the command lines the echo leaked on before /repo 3800b33 (an option's value that reads
+    # like -x / --proxy / -define), new and legacy flag sets
     fixed += SHADOWS_NEW + SHADOWS_LEGACY + [e for e in ERRORS]
     for a in fixed:
         out.append((list(a), True))
+    # after "--" or a stray argument nothing is parsed: the password there is not the proxy setting
+    for a in (["--", "--proxy", PROXY_V], ["stray", "--proxy", PROXY_V], ["-f", "--", "-x", PROXY_V]):
+        out.append((list(a), False))
     while len(out) < n:
         legacy = rng.random() < 0.3
         strict = True
@@ -109,7 +115,13 @@ def gen_argvs(rng, n):
                 strict = False
             pieces.insert(at, e)
         elif r < 0.24:
-            pieces.insert(rng.randint(0, len(pieces)), rng.choice([["--"], ["stray"], ["-"]]))
+            at = rng.randint(0, len(pieces))
+            if at < len(pieces):
+                strict = False
+                # what follows the stopper is not parsed: give it another password, so that the setting the
+                # parser ends up with cannot also occur there by construction
+                pieces[at:] = [[x.replace(PW, "0THERPW") for x in pc] for pc in pieces[at:]]
+            pieces.insert(at, rng.choice([["--"], ["stray"], ["-"]]))
         out.append(([a for p in pieces for a in p], strict))
     return out
 
@@ -485,13 +497,13 @@ Print k_corr_bad. Print k_prop_bad. Print e_corr_bad. Print e_prop_bad.
     if res:
         for i in res["a_prop_bad"]:
             a = argvs[i]
-            # label: is this the known shape (an option's value that reads like a proxy/define flag)?
-            sig = "c14-argv-echo"
+            # label only: the shape repaired by /repo 3800b33 (an option's value that reads like a proxy/define flag)
+            sig, shape = "c14-argv-echo", "other"
             for j in range(len(a) - 1):
                 if re.match(r"^--?(pidfile|logfile|auditlog|cafile|capath|port|address|c|loglevel|pprof|wait-for-port|l|p|a|b|S|P|d)$", a[j]) \
                         and re.match(r"^--?(proxy|x|define)$", a[j + 1]):
-                    sig = "c14-argv-shadowed-option"
-            chk.fail("argv_%d.json" % i, {"what": "the ARGV echo prints the proxy password", "argvs": [a], "strict": [strict[i]],
+                    shape = "the value of another option reads like a proxy/define flag (regression of 3800b33)"
+            chk.fail("argv_%d.json" % i, {"what": "the ARGV echo prints the proxy password", "shape": shape, "argvs": [a], "strict": [strict[i]],
                                           "echo": main_res["echo"][i], "flags": main_res["flags"][i]}, sig=sig)
         for i in res["k_prop_bad"]:
             k = keys[i]
@@ -603,8 +615,8 @@ Print k_corr_bad. Print k_prop_bad. Print e_corr_bad. Print e_prop_bad.
                     if PW in r["log"]:
                         dstats["leaks"] += 1
                         sig, line = leak_sig("daemon", r["log"], PW)
-                        if j[0].startswith("shadow") or j[0] == "legacy_shadow":
-                            sig = "c14-argv-shadowed-option"
+                        if "ARGV[" in line:
+                            sig = "c14-argv-echo"
                         chk.fail("daemon_%s.json" % j[0], {"what": "the proxy password appears in the daemon's log", "line": line,
                                                           "daemon_runs": [j[0]], "argv": r["argv"], "config_file": j[3]}, sig=sig)
                     elif PW in r["stdout"]:
